@@ -158,6 +158,7 @@ func buildC17(e *engine, p *rt.Package) {
 			}
 			w.Header().Set("X-Handled-By", hooked)
 			w.WriteHeader(http.StatusTeapot)
+			_, _ = w.Write([]byte("handled-by:" + hooked))
 			return nil
 		}
 		shared := newServerSel(p, hookFor, nil)
@@ -244,7 +245,7 @@ func buildC17(e *engine, p *rt.Package) {
 			for i := range calls {
 				// the error handler belongs to one registration: no other service's failures go through it
 				// (registrations in one process share nothing but the mux they were given)
-				if calls[i].svc.Name != hooked && (strings.Contains(got[i].err, "status 418") || strings.Contains(want[i].err, "status 418")) {
+				if calls[i].svc.Name != hooked && (strings.Contains(got[i].err, "handled-by:") || strings.Contains(want[i].err, "handled-by:")) {
 					t.Fatalf("call #%d to %s.%s was answered by the error handler that only the registration of %s installed; call: %s; result: %s", i, calls[i].svc.Name, calls[i].m.Name, hooked, short(calls[i].desc, 400), got[i])
 				}
 				if !got[i].equal(want[i]) {
